@@ -212,7 +212,10 @@ class SetMembersMixin:
                             if value.is_module and value.filepath != member.filepath:
                                 with suppress(ValueError):
                                     value = merge_stubs(member, value)  # type: ignore[arg-type]
-                    for alias in member.aliases.values():
+                    if member.aliases and not self.is_collection:  # type: ignore[attr-defined]
+                        # The path of the new value is needed to retarget aliases: attach it first.
+                        value.parent = self  # type: ignore[assignment]
+                    for alias in list(member.aliases.values()):
                         # Registering the alias on its new target follows that target's own chain,
                         # which can be unresolvable when the new value is itself an alias.
                         with suppress(AliasResolutionError, CyclicAliasError):
